@@ -13,11 +13,13 @@ package sequence
 // the query's ID and question are the same on return as on entry, the context still holds the
 // same query, client OPT and response OPT, and the response it leaves — if any — answers that
 // query and carries no OPT record.
-//@ interface Executable.Exec [C03, C15]
+//@ interface Executable.Exec [C03, C15, C06]
 //@   log entryExec
 //@   params self, ctx, qCtx
 //@   requires qCtx != nil
 //@   modifies *
+//@   preserves comp(ChainNode), comp(ChainWalker), elemsof(*ChainNode), elemsof(Matcher)
+//@   ensures result == eErr(self, old(ghost(world, 0))) && ghost(world, 0) == eW(self, old(ghost(world, 0)))
 //@   ensures qCtx.query == old(qCtx.query) && qCtx.clientOpt == old(qCtx.clientOpt) && qCtx.respOpt == old(qCtx.respOpt)
 //@   ensures qCtx.query.Id == old(qCtx.query.Id) && len(qCtx.query.Question) == old(len(qCtx.query.Question))
 //@   ensures old(len(qCtx.query.Question)) == 1 ==> qCtx.query.Question[0] == old(qCtx.query.Question[0])
@@ -25,13 +27,69 @@ package sequence
 //@   ensures qCtx.respOpt != nil ==> qCtx.respOpt.Hdr.Rrtype == 41
 //@   ensures old(qCtx.clientOpt) != nil ==> old(qCtx.clientOpt).Hdr.Class == old(qCtx.clientOpt.Hdr.Class)
 
-// ExecNext, seen from a wrapping plugin: the rest of the chain behaves like any Executable.
-//@ func (w *ChainWalker) ExecNext [C03]
-//@   nobody
-//@   log ExecNext
-//@   requires w != nil && qCtx != nil
+// ---------------------------------------------------------------------------
+// C06: reference semantics of sequences, written from the property statement.
+//
+// The whole mutable state (query context, caches, upstream state, ...) is abstracted by a ghost
+// world value ghost(world, 0); what a plugin does is an arbitrary but fixed function of the world:
+//   matcher m in world w : verdict mOk(m,w), error mErr(m,w), new world mW(m,w)
+//   action  e in world w : error eErr(e,w), new world eW(e,w)
+//   wrapper re in world w with the continuation (chain c from position p, then jump-back jb):
+//                          error reErr(re,w,c,p,jb), new world reW(re,w,c,p,jb)
+// Chains, nodes and walkers are immutable while a query runs (every contract below preserves them),
+// which is what makes a continuation reusable: it is a value, and running it never changes it.
+//@ spec func mOk(m Matcher, w int) bool
+//@ spec func mErr(m Matcher, w int) error
+//@ spec func mW(m Matcher, w int) int
+//@ spec func eErr(e Executable, w int) error
+//@ spec func eW(e Executable, w int) int
+//@ spec func reErr(re RecursiveExecutable, w int, c []*ChainNode, p int, jb *ChainWalker) error
+//@ spec func reW(re RecursiveExecutable, w int, c []*ChainNode, p int, jb *ChainWalker) int
+
+// run(c, p, jb, w): execute chain c from rule p in world w; at its end continue with the pending
+// jump-back jb (return to the rule after the calling jump), or stop.
+// rf(c, p, jb, k, w): rule p of c, its matchers from index k on, then (if all matched) its action.
+//@ spec func runE(c []*ChainNode, p int, jb *ChainWalker, w int) error = ite(p >= len(c), ite(jb == nil, nil, runE(jb.chain, jb.p, jb.jumpBack, w)), rfE(c, p, jb, 0, w))
+//@ spec func runW(c []*ChainNode, p int, jb *ChainWalker, w int) int = ite(p >= len(c), ite(jb == nil, w, runW(jb.chain, jb.p, jb.jumpBack, w)), rfW(c, p, jb, 0, w))
+//@ spec func rfE(c []*ChainNode, p int, jb *ChainWalker, k int, w int) error = ite(k >= len(c[p].Matches), actE(c, p, jb, w), ite(mErr(c[p].Matches[k], w) != nil, mErr(c[p].Matches[k], w), ite(!mOk(c[p].Matches[k], w), runE(c, p + 1, jb, mW(c[p].Matches[k], w)), rfE(c, p, jb, k + 1, mW(c[p].Matches[k], w)))))
+//@ spec func rfW(c []*ChainNode, p int, jb *ChainWalker, k int, w int) int = ite(k >= len(c[p].Matches), actW(c, p, jb, w), ite(mErr(c[p].Matches[k], w) != nil, mW(c[p].Matches[k], w), ite(!mOk(c[p].Matches[k], w), runW(c, p + 1, jb, mW(c[p].Matches[k], w)), rfW(c, p, jb, k + 1, mW(c[p].Matches[k], w)))))
+// the action of rule p: a plain action runs and the chain goes on unless it errs; a wrapping action
+// gets the rest of the chain (and the pending jump-back) and nothing runs after it.
+//@ spec func actE(c []*ChainNode, p int, jb *ChainWalker, w int) error = ite(c[p].E != nil, ite(eErr(c[p].E, w) != nil, eErr(c[p].E, w), runE(c, p + 1, jb, eW(c[p].E, w))), reErr(c[p].RE, w, c, p + 1, jb))
+//@ spec func actW(c []*ChainNode, p int, jb *ChainWalker, w int) int = ite(c[p].E != nil, ite(eErr(c[p].E, w) != nil, eW(c[p].E, w), runW(c, p + 1, jb, eW(c[p].E, w))), reW(c[p].RE, w, c, p + 1, jb))
+
+// well-formed chains: every node is non-nil and executable, every matcher non-nil
+//@ spec func wfChain(c []*ChainNode) bool = forall i int :: 0 <= i && i < len(c) ==> c[i] != nil && (c[i].E != nil || c[i].RE != nil) && (forall k int :: 0 <= k && k < len(c[i].Matches) ==> c[i].Matches[k] != nil)
+// a walker is well-formed if its chain is, and so is every walker on its jump-back list
+//@ spec func wfW(x *ChainWalker) bool = x == nil || (wfChain(x.chain) && 0 <= x.p && wfW(x.jumpBack))
+
+//@ interface Matcher.Match [C06]
+//@   log Match
+//@   params self, ctx, qCtx
 //@   modifies *
-//@   ensures qCtx.query == old(qCtx.query) && qCtx.clientOpt == old(qCtx.clientOpt) && qCtx.respOpt == old(qCtx.respOpt)
-//@   ensures qCtx.query.Id == old(qCtx.query.Id) && len(qCtx.query.Question) == old(len(qCtx.query.Question))
-//@   ensures old(len(qCtx.query.Question)) == 1 ==> qCtx.query.Question[0] == old(qCtx.query.Question[0])
-//@   ensures qCtx.resp != nil ==> respOK(qCtx.query, qCtx.resp) && noOPT(qCtx.resp.Extra) && qCtx.resp != qCtx.query && wfMsg(qCtx.resp) && okRRs(qCtx.resp.Extra)
+//@   preserves comp(ChainNode), comp(ChainWalker), elemsof(*ChainNode), elemsof(Matcher)
+//@   ensures result_0 == mOk(self, old(ghost(world, 0))) && result_1 == mErr(self, old(ghost(world, 0))) && ghost(world, 0) == mW(self, old(ghost(world, 0)))
+
+//@ interface RecursiveExecutable.Exec [C06]
+//@   log REExec
+//@   params self, ctx, qCtx, next
+//@   modifies *
+//@   preserves comp(ChainNode), comp(ChainWalker), elemsof(*ChainNode), elemsof(Matcher)
+//@   ensures result == reErr(self, old(ghost(world, 0)), next.chain, next.p, next.jumpBack) && ghost(world, 0) == reW(self, old(ghost(world, 0)), next.chain, next.p, next.jumpBack)
+
+// ExecNext: executes exactly run(chain, p, jumpBack) — rules in order, matchers left to right with
+// short-circuit, errors abort, wrappers get the rest — and never modifies the walker or the chain.
+//@ func (w *ChainWalker) ExecNext [C06]
+//@   log ExecNext
+//@   requires w != nil && qCtx != nil && wfW(w)
+//@   modifies *
+//@   preserves comp(ChainNode), comp(ChainWalker), elemsof(*ChainNode), elemsof(Matcher)
+//@   ensures result == runE(w.chain, w.p, w.jumpBack, old(ghost(world, 0))) && ghost(world, 0) == runW(w.chain, w.p, w.jumpBack, old(ghost(world, 0)))
+//@   loop 0:
+//@     invariant 0 <= p && wfW(w)
+//@     invariant runE(w.chain, w.p, w.jumpBack, old(ghost(world, 0))) == runE(w.chain, p, w.jumpBack, ghost(world, 0))
+//@     invariant runW(w.chain, w.p, w.jumpBack, old(ghost(world, 0))) == runW(w.chain, p, w.jumpBack, ghost(world, 0))
+//@   loop 1:
+//@     invariant 0 <= p && p < len(w.chain) && wfW(w) && n == w.chain[p] && 0 <= it1 && it1 <= len(n.Matches)
+//@     invariant runE(w.chain, w.p, w.jumpBack, old(ghost(world, 0))) == rfE(w.chain, p, w.jumpBack, it1, ghost(world, 0))
+//@     invariant runW(w.chain, w.p, w.jumpBack, old(ghost(world, 0))) == rfW(w.chain, p, w.jumpBack, it1, ghost(world, 0))
